@@ -505,16 +505,16 @@ where
             Poll::Ready(Err(e)) => classify(e),
         };
         let evs = std::mem::take(&mut framed.io_mut().events);
+        // after every call: is_write_buf_empty / is_write_buf_full / is_write_ready
         out.push(format!(
-            "{}[{}]={}/{}{}",
+            "{}[{}]={}/{}{}{}",
             tok,
             evs.join(","),
             res,
             if framed.is_write_buf_empty() { "E" } else { "-" },
-            if framed.is_write_buf_full() { "F" } else { "-" }
+            if framed.is_write_buf_full() { "F" } else { "-" },
+            if framed.is_write_ready() { "R" } else { "-" }
         ));
-        // the three accessors must agree with each other
-        assert_eq!(framed.is_write_buf_full(), !framed.is_write_ready());
     }
     let parts = framed.into_parts();
     format!("{}|B{}", out.join(";"), blob(&parts.write_buf[..]))
